@@ -244,17 +244,22 @@ class C02(F.PropCheck):
                     v.append('%d bytes of accepted calls never reached the TCP layer but only %d send-buffer overflow(s) of at most %d bytes '
                              'were reported (%d all-OK iterations followed)' % (len(stream) - len(wire), nsbe, c['SRPC_BUFFER'], tail))
                 elif nsbe == 1:
-                    h = self.chunk_offsets(case, rets)
-                    wbefore = 0
+                    # where is the hole?  wire = stream[:g] + stream[g+n:]; at the moment of the report the retry buffer held
+                    # stream[wbefore:g] (everything handed over earlier is either on the wire or waiting), the chunk was stream[g:g+n]
+                    n = len(stream) - len(wire); wbefore = 0
                     for o in outs:
                         if o[0] == 'SENDBUFEXCEEDED': break
                         if o[0] == 'WIRE': wbefore += len(o[2])
-                    cand = [j for j in range(len(h) - 1) if h[j] >= wbefore and stream[:h[j]] + stream[h[j + 1]:] == wire] if h else []
-                    if cand and all(h[j + 1] - wbefore <= c['SEND_BUFFER'] for j in cand):
-                        j = cand[0]
-                        v.append('"Send buffer size exceeded" reported and the %d-byte chunk at stream offset %d dropped although only %d bytes '
+                    p = 0
+                    while p < len(wire) and wire[p] == stream[p]: p += 1
+                    s = 0
+                    while s < len(wire) and wire[len(wire) - 1 - s] == stream[len(stream) - 1 - s]: s += 1
+                    cand = [g for g in range(max(wbefore, len(wire) - s), p + 1)] if n > 0 else []
+                    if cand and all(g + n - wbefore <= c['SEND_BUFFER'] for g in cand):
+                        g = cand[0]
+                        v.append('"Send buffer size exceeded" reported and the %d bytes at stream offset %d dropped although only %d bytes '
                                  'were waiting in the retry buffer (%d + %d <= SEND_BUFFER_SIZE %d): loss without overflow'
-                                 % (h[j + 1] - h[j], h[j], h[j] - wbefore, h[j] - wbefore, h[j + 1] - h[j], c['SEND_BUFFER']))
+                                 % (n, g, g - wbefore, g - wbefore, n, c['SEND_BUFFER']))
         # a restart is a legitimate report only of an out-buffer overflow (C02_overflow_exact): accepted calls that are
         # dropped by a restart although every queued frame fitted below BUFFER_MAX_SIZE are lost without cause
         if not v and restarted and not lossy and wire != stream and not self.overflow_before_restart(case, rets):
@@ -286,25 +291,6 @@ class C02(F.PropCheck):
                     outb += f
                 outb -= min(c['SRPC_BUFFER'], outb)
         return False
-
-    def chunk_offsets(self, case, rets):
-        """stream offsets [h0=0, h1, ...] of the chunks srpc_iterate hands to data_write, one per ITER with a non-empty out buffer
-        (size bookkeeping as in overflow_before_restart; None when a frame does not fit, i.e. a restart is due)"""
-        c = consts(); q = []; outb = 0; ncall = 0; h = [0]
-        for e in case.evs:
-            if e[0] in ('CALL', 'DS'):
-                if ncall >= len(rets): break
-                rr = rets[ncall]; ncall += 1
-                if rr != 0:
-                    cid, payload, _ = ev_call(e); q.append(len(frame(rr, cid, payload)))
-            elif e[0] == 'ITER':
-                if q:
-                    f = q.pop(0)
-                    if outb + f >= c['BUFFER_MAX']: return None
-                    outb += f
-                k = min(c['SRPC_BUFFER'], outb)
-                if k: h.append(h[-1] + k); outb -= k
-        return h
 
     def nontrivial(self, case, io): return any(o[0] == 'WIRE' for o in io[1])
 
